@@ -206,7 +206,7 @@ def run_content(case, model):
         host = _bx((addr if isinstance(addr, str) else addr[0]).encode('utf-8'))
     cl = case['client'] or {}
     line = 'bounce build %s %s %s %s %s %s %s %s %s %s %s %s %d %s %s' % (
-        th, tf, _bx(case['sender'].encode('utf-8')), _bx('\r\n- '.join(case['rcpts']).encode('ascii')), client, host,
+        th, tf, _bx(case['sender'].encode('utf-8')), (','.join(_bx(r.encode('ascii')) for r in case['rcpts']) or '-'), client, host,      # (the model renders the list: Bounce.joinRcpts)
         _bx(case['code'].encode()), _bx(reply.message.encode('utf-8')), _bx(cl.get('name', 'unknown').encode()), _bx(cl.get('ip', 'unknown').encode()),
         _bx(cl.get('protocol', 'unknown').encode()), _bx(b'boundary_=0123456789abcdef0123456789abcdef'), 1 if case['headers_only'] else 0, _bx(oh), _bx(ob))
     mo = model.ask(line).split(' ')
